@@ -4,7 +4,7 @@
 wt=$1; name=$2; prop=$3; demodir=$4; shift 4
 src=$wt/${SEEDDIR:-SEEDED}/$name; id=$prop-$name
 export GOFLAGS=-mod=mod GOPROXY=off
-cd $wt && git checkout -q -- . && git clean -fdq -e SEEDED -e SEEDED3
+cd $wt && git checkout -q -- . && git clean -fdq -e SEEDED -e SEEDED3 -e SEEDED4
 demo=$(ls $src/*_test.go | head -1)
 cp $demo $wt/$demodir/zz_seed_demo_test.go
 tests=$(grep -o "^func Test[A-Za-z0-9_]*" $demo | sed 's/func //' | tr '\n' '|' | sed 's/|$//')
